@@ -6,6 +6,7 @@ import KV.Generated.Install
     (verif-tagged test files in /repo) and diffs the two streams.
 
       D <ret> ; <kind async err : requires : provides/... : structTy : F=ty ...> ; ...   planner dump
+      E <same>                        emitted-program dump in the form recovered from *_band.go
       V <pre> ... | <op> ...          VarPool history (ops n:<base> t:<TypeName> c:<TypeName>)
       I path=name path=name ...       TypeConverter.AddImport history
       F crash|fault                   witnesses of the install step list (failure path of C15)
@@ -32,6 +33,17 @@ def parseProv (idx : Nat) (s : String) : Option PSpec :=
            requires := parseNats req, provides := groups,
            structTy := (parseNats sty).getD 0 0, fields := fields, decl := idx }
   | _ => none
+
+def handleDeclWith (dump : List PSpec → Nat → String) (line : String) : String :=
+  match line.splitOn ";" with
+  | hd :: ps =>
+    match (parseNats hd) with
+    | ret :: _ =>
+      let provs := (List.range ps.length).zip ps |>.map (fun (i, s) => parseProv i s)
+      if provs.any Option.isNone then "BAD"
+      else dump (provs.filterMap id) ret
+    | [] => "BAD"
+  | _ => "BAD"
 
 def handleDecl (line : String) : String :=
   match line.splitOn ";" with
@@ -143,6 +155,7 @@ def handleInstall (what : String) : String :=
 
 def handle (line : String) : String :=
   if line.startsWith "D " then handleDecl (line.drop 2).toString
+  else if line.startsWith "E " then handleDeclWith planDumpE (line.drop 2).toString
   else if line.startsWith "V " then handleVarPool (line.drop 2).toString
   else if line.startsWith "V" && line.length == 1 then "BAD"
   else if line.startsWith "I " then handleImports (line.drop 2).toString
